@@ -572,11 +572,23 @@ func c09gen(s *sim.Sim, interp bool) c09prog {
 		pre = append(pre, name)
 		fmt.Fprintf(&b, "  $ %s = %d\n", name, 1+s.Choose(sim.SWork, 20))
 	}
+	// objects shared between parent and blocks (interpreter only: the compiler has no field
+	// assignment). A program that assigns to a field of an object a block can see is not
+	// "await-only", but it must still run without data races.
+	shareObj := interp && !tagged && s.Choose(sim.SWork, 2) == 0
+	if shareObj {
+		fmt.Fprintf(&b, "  $ o = {a: %d, b: %d}\n", 1+s.Choose(sim.SWork, 9), 1+s.Choose(sim.SWork, 9))
+	}
 	nblocks := 1 + s.Choose(sim.SWork, 4)
 	var futs []string
 	nextParent := 0
 	parentStmt := func() {
 		// parent keeps declaring / assigning while blocks run
+		if shareObj && s.Choose(sim.SWork, 2) == 0 {
+			// the parent assigns to a field of the shared object while blocks run
+			fmt.Fprintf(&b, "  $ o.%s = %s + %d\n", []string{"a", "b", "c"}[s.Choose(sim.SWork, 3)], pre[s.Choose(sim.SWork, len(pre))], s.Choose(sim.SWork, 9))
+			return
+		}
 		switch s.Choose(sim.SWork, 3) {
 		case 0:
 			name := fmt.Sprintf("p%d", nextParent)
@@ -602,6 +614,14 @@ func c09gen(s *sim.Sim, interp bool) c09prog {
 		x := id + "_x"
 		readable := append([]string(nil), pre...)
 		fmt.Fprintf(&bb, "%s  $ %s = %s + %d\n", indent, x, readable[s.Choose(sim.SWork, len(readable))], s.Choose(sim.SWork, 7))
+		if shareObj {
+			switch s.Choose(sim.SWork, 3) {
+			case 0: // the block reads the shared object
+				fmt.Fprintf(&bb, "%s  %s = %s + o.a\n", indent, x, x)
+			case 1: // the block assigns to it
+				fmt.Fprintf(&bb, "%s  $ o.b = %s\n", indent, x)
+			}
+		}
 		switch s.Choose(sim.SWork, 4) {
 		case 0:
 			i := id + "_i"
@@ -664,6 +684,9 @@ func c09Programs(s *sim.Sim, p *sim.Params) {
 	if err != nil {
 		// the generator must only produce loadable programs; treat as infrastructure trouble
 		s.InfraFail("C09: generated program does not load: " + err.Error() + "\n" + pg.src)
+	}
+	if strings.Contains(pg.src, "$ o = {") {
+		s.Probe("program:shares-object")
 	}
 	if sv.compiled {
 		s.Probe("program:compiled")
